@@ -653,6 +653,10 @@ class BaseProxy(_BaseProxy_):
             kind, result = server._callmethod(
                 None, self._token.id, methodname, args, kwds
             )
+            if kind == '#ERROR' and isinstance(result, RemoteException):
+                # On this in-process path the reply is not pickled and unpickled,
+                # so it is still the wrapper (which can not be raised), not the exception.
+                result = result.exc
         else:
             try:
                 conn = self._tls.connection
